@@ -147,4 +147,60 @@ PROPS = {
         "c12_scan, c12_index, c12_point (incl. version slabs spanning blocks; the seek rule is proved right), c12_get (global seqno shift, early exit, any filter without false negatives), c12_range_both_ends (all bounds, all words), c12_meta (streaming bookkeeping = declarative), c12_filter_complete, c12_block_seek (restart-head jump), c12_block_codec_roundtrip (varint, full / truncated entries, binary index, trailer) — for every stream, block size and restart interval.",
         "the byte-level backward / seek decoder and the two-level index are validated by correspondence only; c12_range_both_ends assumes seqno < u64::MAX (the real code skips a block ending in (key, u64::MAX) on a lower-bound seek; unreachable with real sequence numbers)",
         "7 C12"),
+    "C04": entry(
+        "Flushed data survives reopen and reopen restores exactly the flushed state",
+        [ib("reopen", 500, 20000, blob=2, ops=50), ib("ingest", 200, 8000, blob=2, ops=50)],
+        "I-B: histories with reopen (drop + Config::open on the same directory, counters kept) at ~15% of all positions, also repeatedly, after trivial moves, clear, drop_range, ingestion, in key-value-separated trees; after each reopen the full state (levels, run order, table ids, contents incl. sequence numbers, global seqnos, recorded ranges) must equal the model's `reopen` of the state before, get_highest_persisted_seqno must not change, and the history continues with writes / flushes / compactions (fresh table ids must not collide); non-trivial = >= 1 compaction and >= 2 flushes",
+        TECH,
+        "c04_reopen_exact / c04_reopen_flushed_only / c04_reopen_keeps_structure / c04_continue_after_reopen / c04_reads_across_reopens: reopen keeps the version (tables, order, ids), drops exactly the memtables, leaves every read of flushed data unchanged, and C01 holds across any number of reopens.",
+        "the manifest byte codec is validated by correspondence (state equality after a real reopen), its Lean model is pending; blob file id allocation after reopen: finding F8 (fixed)",
+        "7 C04"),
+    "C07": entry(
+        "Every published tree version is structurally sound and matches its manifest",
+        [ia("runs", 800, 20000), ib("core", 500, 20000, blob=2, ops=60), ib("all", 300, 10000, blob=2, ops=60)],
+        "I-A: optimize_runs and the Run lookup functions vs model + structural oracle on the real output; I-B: after EVERY op the real version is audited independently of the model (every table iterated: strictly sorted, recorded key range / item_count / tombstone counts / highest seqno = contents; runs ascending and disjoint; for tables in different runs sharing a key the one consulted first holds only newer seqnos; every named file exists) and the model evaluates SORT / META / RUN / ORD on the identical state; reopen decodes the manifest and the state must be identical",
+        TECH,
+        "c07_every_published_version_sound, c07_reachable_structurally_sound, c07_runs_disjoint_ascending, c07_read_order_newer, c07_key_versions_in_one_table, c07_recorded_range_exact, c07_optimize_*, c07_with_*_wf: every version of every history entry of every reachable state satisfies the four clauses.",
+        "c07_version_roundtrip_partial: the version-file codec has no Lean model yet (manifest round trip is validated by real reopen in I-B)",
+        "7 C07"),
+    "C08": entry(
+        "Key-value separation is invisible to the user",
+        [ib("all", 400, 15000, blob=1, ops=60), ib("reloc", 800, 30000, blob=1, ops=70), ib("snap", 300, 10000, blob=1, ops=60), ib("filter", 200, 8000, blob=1, ops=60)],
+        "I-B on key-value-separated trees (threshold 0/1/8/12/1000, blob file target 1 B .. 1 KiB, staleness 0.3, age cutoff 1.0): the same configuration-free model and ordered-map oracle as for standard trees; every stored pointer of every table of the current version AND of every version a held snapshot resolves to is decoded and resolved against that version's blob files and must yield the bytes written for that key and version; `reloc` profile: few keys, several live versions, blob files made partly stale by drop_range, relocating major compactions; non-trivial = >= 1 compaction and >= 2 flushes",
+        TECH,
+        "c08_separation_invisible: for every op list (entries value / tombstone, no compaction filter) the run of a key-value-separated tree equals the run of a standard tree up to erasing the indirection tag — same accepted decisions, same point reads, same scans (c08_point_reads, c08_scans); c08_gc_stream_commutes.",
+        "with weak tombstones or compaction filters the simulation is validated by correspondence only (a weak tombstone does not annihilate with an indirection: space, not reads); pointer arithmetic (offsets, blob file bytes) is checked by resolution on the real files, not modelled",
+        "7 C08"),
+    "C09": entry(
+        "Blob garbage statistics are exact and only unreferenced blob files are dropped",
+        [ib("all", 400, 15000, blob=1, ops=60), ib("reloc", 800, 30000, blob=1, ops=70), ib("drop", 300, 10000, blob=1, ops=60), ib("filter", 200, 8000, blob=1, ops=60)],
+        "I-B on key-value-separated trees: after every op the garbage of every blob file of the current version is recomputed independently (scan of the blob file, minus the (file, offset) pairs any table points to) and compared with gc_stats (len, bytes, on_disk_bytes), stale_blob_bytes, blob_file_count; entries kept for departed files must equal that file's totals; reopen in the mix (statistics survive); non-trivial as C08",
+        TECH,
+        "c09_on_dropped_exact, c09_with_dropped_exact (incl. on-disk bytes; c09_with_dropped_legacy_partial records F2), c09_prune_exact, c09_stale_bytes_exact, c09_dead_iff_unreferenced, c09_relocation_exact, c09_with_merge_exact on the model of FragmentationMap / is_dead / prune_dead.",
+        "c09_dead_unreferenced needs every blob to have size > 0 (a zero-size blob is invisible to the byte-based is_dead; counterexample proved, not reachable in the campaigns); the accounting model is tied to the code through the recomputation audit, not through a step-validated blob state",
+        "7 C09"),
+    "C14": entry(
+        "Bulk ingestion becomes visible atomically and overrides older data",
+        [ib("ingest", 500, 20000, blob=2, ops=60)],
+        "I-B: histories with ingestions of sorted batches (values and tombstones, overlapping existing runs, into empty and deep trees, with non-empty memtables, standard and key-value-separated), snapshots held across them, flush / compaction / reopen afterwards; state compared with the model after every op (global seqno of ingested tables, version seqno, internal flush), reads at held and new snapshots vs oracle",
+        TECH,
+        "c14_reads_after_ingest, c14_atomic, c14_invisible_to_earlier_snapshots, c14_later_write_wins, c14_memtable_data_stays.",
+        "a writer racing Ingestion::finish is outside the quantifier",
+        "7 C14"),
+    "C15": entry(
+        "drop_range and clear affect only what they name, and only for later snapshots",
+        [ib("drop", 500, 20000, blob=2, ops=60)],
+        "I-B: drop_range with bounds drawn relative to the key set (inclusive / exclusive / unbounded each side, inverted, empty) and clear, with snapshots held before; the model PREDICTS the dropped table set (dropRangeChoose) and the state after; keys outside R and all keys at earlier snapshots vs oracle (inside R the oracle is re-synchronised from the tree)",
+        TECH,
+        "c15_drop_range_outside_untouched, c15_drop_range_old_snapshots, c15_drop_range_inverted_noop, c15_clear_empties, c15_clear_old_snapshots, c15_clear_then_write, c15_run.",
+        "scans at the newest snapshot for keys outside R are covered by correspondence (point reads by theorem)",
+        "7 C15"),
+    "C18": entry(
+        "Reported sequence-number high-water marks equal what is actually stored",
+        [ib("all", 400, 15000, blob=2, ops=60), ib("ingest", 200, 8000, blob=2, ops=50), ib("reopen", 200, 8000, blob=2, ops=50)],
+        "I-B: after every op get_highest_persisted_seqno / get_highest_memtable_seqno / get_highest_seqno are compared with maxima recomputed by iterating every table and memtable (incl. ingested tables with shifted sequence numbers, after GC, drop_range, clear) and must not change across reopen; per table get_highest_seqno vs stored maximum",
+        TECH,
+        "c18_persisted_is_max, c18_per_table, c18_table_meta_max, c18_reopen_same, c18_below_counter_reach, c18_flush_monotone, c18_merge_not_above (+ the proved counterexample that a last-level merge may lower the mark by evicting the tombstone that carried it).",
+        "",
+        "7 C18"),
 }
